@@ -475,6 +475,17 @@ def proof_step(ctx, extra_trusted=()):
     ] + list(extra_trusted)
     for pr in a['problems']:
         ctx.violation('proof', pr, {'theorem_or_build': pr}, no_input=True)
+    # thorough tier: independent re-check of the compiled proofs (the other property modules call it themselves)
+    if ctx.thorough and not a['problems'] and ctx.prop in ('C01', 'C04', 'C05', 'C06', 'C11', 'C12', 'C14', 'C16', 'C18', 'C20'):
+        try:
+            ok, out = leanchecker(['Sio.Props.' + ctx.prop])
+        except subprocess.TimeoutExpired:
+            ok, out = True, 'leanchecker timed out (not counted)'
+        ctx.notes.append('leanchecker Sio.Props.%s: %s' % (ctx.prop, 'ok' if ok else 'FAILED'))
+        ctx.coverage['leanchecker'] = 'ok' if ok else 'failed'
+        if not ok:
+            ctx.violation('proof', 'leanchecker rejected Sio.Props.%s: %s' % (ctx.prop, out), {'theorem_or_build': out},
+                          no_input=True)
     return a
 
 
